@@ -21,7 +21,13 @@ RULE = ('trees: form / generic documents in four kinds, detached fragments, seve
         'attribute / class / id selectors read additionally take None, ints, floats, bytes, tuples and nested lists through the '
         'bs4 API. Selectors: every pseudo-class of the tables generated from the source, combined. Every entry point (select, '
         'select_one, iselect, match, filter, closest) on the document, the root and inner elements must return; a non-Tag target '
-        'must raise TypeError and nothing else. And PY = Lean matcher model. Non-trivial = non-empty result or an odd value present.')
+        'must raise TypeError and nothing else. And PY = Lean matcher model. Non-trivial = non-empty result or an odd value present. '
+        'Second sweep (odd values x state pseudo-classes): dense form documents (containers turned into <form>, nested forms, '
+        'structurally identical forms and controls, comment / CDATA / processing-instruction nodes between controls) carry odd '
+        'values on free attributes of ARBITRARY elements (the form, a control, an unrelated descendant, html / head / meta, an '
+        'element outside the form); every pseudo-class, alone and under "form X" / ":not(X)" / ":is(X)" / ":has(X)" / "* > X", '
+        'is evaluated with EVERY element as the target of match and closest, and the document, the root and sampled elements as '
+        'the target of select / select_one / iselect / filter, also reusing one compiled selector over several documents.')
 
 HOSTILE = ['', ' ', 'x', '0', '-1', '1e5', '1E-400', '.5', '-.', '5.', '1' * 400, '٣', '0000-01-01', '0001-01-01', '0999-12-31', '1000-02-29',
            '9999-12-31', '10000-01-01', '100000000-06-15', '2020-02-30', '2019-W53', '2020-W53', '2020-W00', '2020-W54', '0999-W01', '10000-W52',
@@ -31,6 +37,9 @@ HOSTILE = ['', ' ', 'x', '0', '-1', '1e5', '1E-400', '.5', '-.', '5.', '1' * 400
 HUGE = __import__('re').compile(r'[0-9]{4301,}')      # beyond CPython's int-conversion limit: outside the model
 STATE_ATTRS = ['type', 'min', 'max', 'value', 'dir', 'lang', 'name', 'placeholder', 'http-equiv', 'content', 'TYPE', 'Dir']
 ODD = [None, 5, 2.5, b'bytes', b'', b'\xff', b'a\xc3', [b'\xfe\xff', 'c1'], 'c1 \x85x', ('a', 'b'), ['a', ['b', 'c']], [1, None], True, [], ['x', b'y']]
+# the second sweep draws from a wider pool of the same four families (None, numbers, bytes, nested lists), alone and inside lists
+ODD2 = ODD + [[None], ['c1', None], ['c1', 3], [2.5, 'a'], [['c1']], [[], 'a'], ['a', ['b', ['c', 1]]], [b'', 'c1'], ('c1', 7), ('a', ('b', 'c')),
+              0, -1, 10 ** 30, float('inf'), False, [True, 'c1'], ['c1', 'c2'], 'c1']
 FREE_ATTRS = ['title', 'data-x', 'id', 'class', 'rel', 'href2']
 ALL_PSEUDO = [':link', ':any-link', ':checked', ':default', ':indeterminate', ':disabled', ':enabled', ':required', ':optional',
               ':placeholder-shown', ':read-write', ':read-only', ':in-range', ':out-of-range', ':dir(ltr)', ':dir(rtl)', ':defined',
@@ -99,6 +108,141 @@ def enc_val(v):
     return v
 
 
+WRAPS = ['{}', '{}', 'form {}', ':not({})', ':is({}, #none)', ':has({})', '* > {}', 'form > {}', '{} ~ *', ':not(:not({}))']
+CONTAINERS = ('div', 'fieldset', 'body')
+
+
+def densify(r, t, p_form):
+    """Turn some containers of a generated form tree into <form> (nested forms included: the object API permits them) and drop
+    comment / CDATA / processing-instruction nodes between the controls."""
+    if t[0] != 'e':
+        return t
+    _, name, prefix, ns, attrs, kids = t
+    kids = [densify(r, k, p_form) for k in kids]
+    if kids and r.random() < 0.15:
+        kids.insert(r.randint(0, len(kids)), r.choice([('c', 'x'), ('cd', 'a'), ('pi', 'x y'), ('t', ' '), ('c', '')]))
+    if name in CONTAINERS and name != 'body' and any(k[0] == 'e' for k in kids) and r.random() < p_form:
+        name = 'form'
+    return ('e', name, prefix, ns, list(attrs), kids)
+
+
+def all_elems(top):
+    out, stack = [], list(top)
+    while stack:
+        t = stack.pop()
+        if t[0] == 'e':
+            out.append(t)
+            stack.extend(t[5])
+    return out
+
+
+def place_odd(r, top, n):
+    """Put `n` odd values on free attributes of elements drawn uniformly from the whole tree (in place; `top` holds fresh tuples)."""
+    els = all_elems(top)
+    placed = 0
+    for _ in range(n):
+        t = r.choice(els)
+        k = r.choice(FREE_ATTRS)
+        if all(k != k0 for k0, _ in t[4]):
+            t[4].append((k, r.choice(ODD2)))
+            placed += 1
+    return placed
+
+
+def entry_points(c, tgt, full, up=True):
+    """Every entry point on one target.  `full`: also the ones that walk the subtree; `up`: also the one that walks the ancestors."""
+    if full:
+        c.select(tgt), c.select_one(tgt), list(c.iselect(tgt)), c.filter(tgt), c.filter(list(tgt.contents))
+    if not isinstance(tgt, bs4.BeautifulSoup):
+        c.match(tgt)
+        if up:
+            c.closest(tgt)
+
+
+def odd_state_sweep(chk, rng, raised):
+    """Odd free-attribute values anywhere in dense form documents x every pseudo-class x every element as the target."""
+    quick = chk.tier == 'quick'
+    n_docs = 220 if quick else 4000
+    n_sel = 6 if quick else 12
+    docs_with_form_submit = targets = nonvacuous = odd_placed = 0
+    compiled = {}
+    for _ in range(n_docs):
+        kind, top = gen.gen_state_doc(rng)
+        p_form = rng.choice([0.0, 0.3, 0.6, 1.0, 1.0])
+        top = [mutate(rng, densify(rng, t, p_form), False) for t in top]
+        if rng.random() < 0.5:
+            # structurally identical twins (bs4 compares and hashes tags by content): a copy of a whole subtree next to it
+            host = rng.choice([t for t in all_elems(top) if t[5]] or [None])
+            if host is not None:
+                src = rng.choice(host[5])
+                host[5].insert(rng.randint(0, len(host[5])), mutate(rng, src, False) if rng.random() < 0.3 else copy_tree(src))
+        odd_placed += place_odd(rng, top, rng.choice([1, 1, 2, 3, 5]))
+        detached = rng.random() < 0.1
+        try:
+            soup = build(kind, top, detached)
+        except Exception:
+            continue
+        els = gen.elements(soup) or [soup]
+        if any(e.name == 'form' and e.find(lambda x: x.name in ('button', 'input') and str(x.attrs.get('type', '')).lower() == 'submit')
+               for e in els):
+            docs_with_form_submit += 1
+
+        def fail(sel, tgt, e):
+            raised.append({'selector': sel, 'kind': kind, 'tree': [jsonable(t) for t in top], 'detached': detached,
+                           'target': enc.path_of(tgt), 'exception': f'{type(e).__name__}: {e}', 'sweep': 'odd x state'})
+        # (a) every pseudo-class of the table, bare, over the whole document; remember the ones that select something here
+        alive = []
+        for ps in ALL_PSEUDO:
+            if ps not in compiled:
+                compiled[ps] = sv.compile(ps, {'svg': gen.SVG})
+            targets += 1
+            try:
+                if compiled[ps].select(soup):
+                    alive.append(ps)
+            except Exception as e:
+                fail(ps, soup, e)
+        nonvacuous += len(alive)
+        # (b) a sample of them (mostly the non-vacuous ones) in context, with every element as the target
+        sels = []
+        picked = rng.sample(alive, min(len(alive), n_sel - 2))
+        for ps in picked + rng.sample(ALL_PSEUDO, n_sel - len(picked)):
+            sel = rng.choice(WRAPS).format(ps)
+            if rng.random() < 0.2:
+                sel += rng.choice(ALL_PSEUDO)
+            sels.append(sel)
+        for sel in sels:
+            if sel not in compiled:
+                try:
+                    compiled[sel] = sv.compile(sel, {'svg': gen.SVG})      # one compiled object serves many documents
+                except Exception:
+                    compiled[sel] = None
+            c = compiled[sel]
+            if c is None:
+                continue
+            # match on EVERY element; the subtree walkers on the document, the root and one more element; closest from a few
+            # elements (it evaluates the same match on each ancestor, so leaves-to-root paths are covered without a quadratic cost)
+            full = {id(soup), id(els[0]), id(rng.choice(els))}
+            up = {id(e) for e in rng.sample(els, min(5 if quick else 12, len(els)))}
+            for tgt in [soup] + els:
+                targets += 1
+                try:
+                    entry_points(c, tgt, id(tgt) in full, id(tgt) in up)
+                except Exception as e:
+                    fail(sel, tgt, e)
+                    break
+    chk.coverage.update({'odd_state_documents': n_docs, 'odd_state_documents_with_form_and_submit': docs_with_form_submit,
+                         'odd_state_odd_values_placed': odd_placed, 'odd_state_target_evaluations': targets,
+                         'odd_state_nonvacuous_pseudo_document_pairs': nonvacuous,
+                         'odd_state_distinct_selectors': len([c for c in compiled.values() if c])})
+    return targets
+
+
+def copy_tree(t):
+    if t[0] != 'e':
+        return t
+    return ('e', t[1], t[2], t[3], list(t[4]), [copy_tree(k) for k in t[5]])
+
+
 def run(chk):
     import framework
     import matchcorr
@@ -159,6 +303,9 @@ def run(chk):
                     pass
                 except Exception as e:
                     raised.append({'what': f'{fn.__name__}({badt!r}) raised {type(e).__name__} instead of TypeError'})
+    sweep_calls = odd_state_sweep(chk, random.Random(chk.seed * 7919 + 8), raised)
+    evaluations += sweep_calls
+    nontriv += sweep_calls
     if driver_ok:
         for (py, sel, kind, top, detached), resp in zip(expect, driver.run(lines)):
             if enc.parse_sx(resp) != py:
@@ -201,7 +348,7 @@ def replay(chk, path):
     tgt = enc.node_at(soup, data['target']) if 'target' in data else soup
     try:
         c = sv.compile(data['selector'], {'svg': gen.SVG})
-        c.select(tgt), c.select_one(tgt), c.filter(tgt)
+        entry_points(c, tgt, True)
         print('no exception')
         return 0
     except Exception as e:
